@@ -59,6 +59,8 @@ def widths_for(tier, n):
         ((1, 0), (0, 0)), ((0, 0), (0, 1)), ((0, 2), (0, 0)), ((0, 0), (2, 0)),
         ((1, 1), (1, 1)), ((2, 1), (1, 0)), ((0, 1), (1, 2)), ((n, 0), (0, n)),
         ((1, n), (n, 1)), ((0, 0), (0, 0)),
+        # wider than the axis is long (a periodic halo then wraps around more than once)
+        ((n + 2, 1), (0, 2 * n + 1)),
     ]
     if tier == "quick":
         base = base[:2] + base[4:]
